@@ -191,7 +191,7 @@ Proof. vm_compute. reflexivity. Qed.
 Example O01_body_goose_Ctx_binExpr :
   has_body func_bodies "goose.Ctx.binExpr"
     "func(e *ast.BinaryExpr) coq.Expr"
-    "{ op, ok := map[token.Token]coq.BinOp{ token.LSS: coq.OpLessThan, token.GTR: coq.OpGreaterThan, token.SUB: coq.OpMinus, token.EQL: coq.OpEquals, token.NEQ: coq.OpNotEquals, token.MUL: coq.OpMul, token.QUO: coq.OpQuot, token.REM: coq.OpRem, token.LEQ: coq.OpLessEq, token.GEQ: coq.OpGreaterEq, token.AND: coq.OpAnd, token.LAND: coq.OpLAnd, token.OR: coq.OpOr, token.LOR: coq.OpLOr, token.XOR: coq.OpXor, token.SHL: coq.OpShl, token.SHR: coq.OpShr, }[e.Op] if isString(ctx.typeOf(e.X)) { switch e.Op { case token.LSS, token.GTR, token.LEQ, token.GEQ: ctx.unsupported(e, ""ordering comparison %v of strings"", e.Op) return nil } } if e.Op == token.ADD { if isString(ctx.typeOf(e.X)) { op = coq.OpAppend } else { op = coq.OpPlus } ok = true } if ok { expr := coq.BinaryExpr{ X: ctx.expr(e.X), Op: op, Y: ctx.expr(e.Y), } if ctx.isNilCompareExpr(e) { if _, ok := ctx.typeOf(e.X).(*types.Pointer); ok { expr.Y = coq.Null } } return expr } ctx.unsupported(e, ""binary operator %v"", e.Op) return nil }" = true.
+    "{ op, ok := map[token.Token]coq.BinOp{ token.LSS: coq.OpLessThan, token.GTR: coq.OpGreaterThan, token.SUB: coq.OpMinus, token.EQL: coq.OpEquals, token.NEQ: coq.OpNotEquals, token.MUL: coq.OpMul, token.QUO: coq.OpQuot, token.REM: coq.OpRem, token.LEQ: coq.OpLessEq, token.GEQ: coq.OpGreaterEq, token.AND: coq.OpAnd, token.LAND: coq.OpLAnd, token.OR: coq.OpOr, token.LOR: coq.OpLOr, token.XOR: coq.OpXor, token.SHL: coq.OpShl, token.SHR: coq.OpShr, }[e.Op] if isString(ctx.typeOf(e.X)) { switch e.Op { case token.LSS, token.GTR, token.LEQ, token.GEQ: ctx.unsupported(e, ""ordering comparison %v of strings"", e.Op) return nil } } if e.Op == token.ADD { if isString(ctx.typeOf(e.X)) { op = coq.OpAppend } else { op = coq.OpPlus } ok = true } if ok { expr := coq.BinaryExpr{ X: ctx.expr(e.X), Op: op, Y: ctx.expr(e.Y), } if ctx.isNilCompareExpr(e) { if _, ok := ctx.typeOf(e.X).(*types.Pointer); ok { expr.Y = coq.Null } if _, ok := ctx.typeOf(e.X).Underlying().(*types.Map); ok { expr.Y = coq.Null } } return expr } ctx.unsupported(e, ""binary operator %v"", e.Op) return nil }" = true.
 Proof. vm_compute. reflexivity. Qed.
 
 Example O01_body_goose_Ctx_unaryExpr :
